@@ -216,8 +216,15 @@ def _check_rejecting_test(ctx: Ctx, m: pf.Module, fname: str, validator: str, pa
                     return
             tests.append((n, neg))
     if not tests:
-        mentions = [c for c in pf.calls_in(fn) if pf.dotted(c.func) == validator]
-        ctx.need(not mentions, f'{fname}: {validator} is called in a shape that is not a plain `if [not] {validator}({param})` test')
+        mentions = [x for x in ast.walk(fn) if isinstance(x, ast.Name) and x.id == validator]
+        ctx.need(not mentions, f'{fname}: {validator} is used in a shape that is not a plain `if [not] {validator}({param})` test')
+        # "never tested" is evidence only when no helper of this module that receives the value could do the test
+        for c in pf.calls_in(fn):
+            d = pf.dotted(c.func)
+            if d and '.' not in d and m.has_func(d) and any(isinstance(x, ast.Name) and x.id == param for a in list(c.args) + [k.value for k in c.keywords] for x in ast.walk(a)):
+                helper = m.func(d)
+                ctx.need(not any(isinstance(x, ast.Name) and x.id == validator for x in ast.walk(helper)),
+                         f'{fname}: {param} is handed to {d}, which uses {validator}; the test is not followed into the helper')
         ctx.bad('R3', cons, f'{fname} never tests {validator}({param}): every username reaches the INSERT unvalidated', m.path, fn.lineno)
         return
     # the rejecting branch of each test must not reach the normal exit
